@@ -4,7 +4,7 @@ from props.proxy_common import *
 ID = "C01"
 COQ_TARGETS = ["Run/Run_Proxy.vo"]
 META = {
-    "text": "Theorems (Properties/C01.v) over the Gallina cluster model of piko's proxy data path (EndpointIDFromRequest incl. net.SplitHostPort/net.ParseIP, gin route "
+    "text": "Composition (Compose/*.v): C01_settled_from_convergence and C01_end_to_end derive the proxy model's [settled] - and hence 'served iff some node's manager holds an upstream for E, else 502' - from the lower layers: managers' registries (C05 invariant), converged gossip views (C03_converged_views + id closure), watcher fold (C14) and syncer table (C04). Theorems (Properties/C01.v) over the Gallina cluster model of piko's proxy data path (EndpointIDFromRequest incl. net.SplitHostPort/net.ParseIP, gin route "
             "choice, LoadBalancedManager.Select, State.LookupEndpoint, the per-hop request transformation of ServeHTTPWithUpstream+ReverseProxy incl. keepControlHeaders, "
             "NodeUpstream dial): for every cluster size, placement, (inconsistent) views, entry node and addressing mode a delivered request is served by an upstream "
             "registered under the addressed endpoint or answered 400/401/502/504; with settled views every node serves E iff a reachable node has an upstream for E and "
